@@ -28,14 +28,14 @@ META = {
         'row in write/append is protect(e) or a brace-wrapped join of protect(x); C01.PROTECT-PRED - protect quotes '
         'when the text is empty, contains # or matches a whitespace regex (re.search, class covers blank and tab); '
         'C01.NO-MEMO - protect is not memoised by value equality (0.0 == -0.0); C01.COLORDER - the returned column '
-        'list and the typedef lines iterate the same sequence; C01.CASE - tables are registered and dispatched under '
+        'list and the typedef lines iterate the same sequence; C01.STRWIDTH - type code, array length and string width of a column come from the same dtype level; C01.CONT - the continuation-joining pattern of the reader consumes only the backslash, trailing blanks and the newline (nothing of the cells around it); C01.CASE - tables are registered and dispatched under '
         '.upper() keys; C01.INTCONV - integer cells are converted by int() directly on the token, floats by float(); '
         'C01.PAIRS - pairs() is all keys minus tables(), tables() is all symbols minus {struct, enum}; C01.ENTRY - the '
         'Table entry points reach the file only through write_ndarray_to_yanny / yanny.__init__ and pass table.meta. '
         'NOT decided: that str(value) -> float()/int() is lossless for every value, that get_token/trailing_comment '
         'invert protect for every string, zero-row behaviour, header text equality, enum round trip.'),
     'floors': {'C01.TYPEMAP': 4, 'C01.REFUSE': 2, 'C01.PROTECT-FLOW': 4, 'C01.PROTECT-PRED': 3, 'C01.COLORDER': 1,
-               'C01.CASE': 4, 'C01.INTCONV': 4, 'C01.PAIRS': 2, 'C01.ENTRY': 3, 'C01.NO-MEMO': 1},
+               'C01.CASE': 4, 'C01.INTCONV': 4, 'C01.PAIRS': 2, 'C01.ENTRY': 3, 'C01.NO-MEMO': 1, 'C01.STRWIDTH': 1, 'C01.CONT': 1},
 }
 
 CANON = {'f': 'f4', 'd': 'f8', 'f4': 'f4', 'f8': 'f8', 'i2': 'i2', 'i4': 'i4', 'i8': 'i8', 'h': 'i2', 'i': 'i4', 'l': 'i8', 'q': 'i8',
@@ -309,6 +309,46 @@ def check_colorder(ctx, yc):
                   'under other columns\' types' % (src(inner), src(loops[-1].iter)), construct='column order')
 
 
+def check_strwidth(ctx, yc):
+    """The type code, the array length and the string width of a column are all taken from the same level of the dtype:
+    for a sub-array column the element dtype (subdtype[0] / .base), never the whole sub-array."""
+    f = yc.method('dtype_to_struct')
+    fa = FA(f)
+    loop = [n for n in walk_local(f.node) if isinstance(n, ast.For) and 'names' in src(n.iter) and any(
+        isinstance(c, ast.Call) and call_name(c) == 'append' for c in walk_local(n))]
+    ctx.need(loop, 'dtype_to_struct: column loop not found')
+    lp = loop[-1]
+    fmt = [c for c in walk_local(lp) if isinstance(c, ast.Call) and call_name(c) == 'format' and isinstance(c.func.value, ast.Constant)
+           and c.func.value.value == '[{0:d}]' and c.args and isinstance(c.args[0], ast.Name)]
+    ctx.need(len(fmt) >= 2, 'dtype_to_struct: array-length / string-width suffixes not found')
+    width = None
+    for c in fmt:
+        cond = [src(a.test) for a in ancestors(c) if isinstance(a, ast.If)]
+        if any("'SU'" in x for x in cond):
+            width = c.args[0]
+    ctx.need(width is not None, 'dtype_to_struct: string width suffix not found')
+    elem = lambda txt: ('subdtype[0]' in txt) or ('.base' in txt)
+    tdefs = [(d, v) for st in walk_local(lp) if isinstance(st, ast.Assign) and src(st.targets[0]) == 't' for d, v in [(st, st.value)]]
+    wdefs = [(st, st.value) for st in walk_local(lp) if isinstance(st, ast.Assign) and src(st.targets[0]) == width.id]
+    ctx.need(tdefs and wdefs, 'dtype_to_struct: type / width definitions not found')
+    bad = []
+    for (td, tv) in tdefs:
+        def block_of(st):
+            par = st._parent
+            for fld in ('body', 'orelse', 'finalbody'):
+                lst = getattr(par, fld, None)
+                if isinstance(lst, list) and any(st is x for x in lst):
+                    return (id(par), fld)
+            return (id(par), '?')
+        same_branch = [wv for (wd, wv) in wdefs if block_of(wd) == block_of(td)]
+        for wv in same_branch:
+            if elem(src(tv)) != elem(src(wv)):
+                bad.append((src(tv), src(wv)))
+    ctx.check('C01.STRWIDTH', not bad, f, wdefs[0][0], 'type code and string width come from the same dtype level in every branch (%d branch(es))' % len(tdefs),
+              msg='the type code is taken from the element dtype (`%s`) but the string width from the whole column dtype (`%s`): a string-array column '
+                  '(S6, (3,)) is declared char[3][18] and reads back with another type' % (bad[0] if bad else ('', '')), construct='string width level: %s' % (bad[:1],))
+
+
 def upper_derived(e, fa, depth=0):
     e0 = e
     if isinstance(e, ast.Call) and call_name(e) == 'upper':
@@ -460,6 +500,17 @@ def run(ctx):
     ctx.need(n >= 2, 'fewer emitted cells than expected in write/append row loops')
     check_protect_pred(ctx, yc)
     check_colorder(ctx, yc)
+    check_strwidth(ctx, yc)
+    from .c02 import check_cont
+    sub = type(ctx)(ctx.prop, ctx.repo, ctx.tier)
+    check_cont(sub, yc)
+    for o in sub.obligations:
+        o['rule'] = 'C01.CONT'
+        ctx.obligations.append(o)
+        ctx.rule_counts['C01.CONT'] = ctx.rule_counts.get('C01.CONT', 0) + 1
+    for v in sub.violations:
+        v.rule = 'C01.CONT'
+        ctx.violations.append(v)
     check_case(ctx, repo, yc)
     check_intconv(ctx, yc)
     check_pairs(ctx, yc)
